@@ -65,3 +65,17 @@ pub fn vto_vec_records(s: &[EventRecord]) -> (r: Vec<EventRecord>)
 pub fn u16_to_le_bytes(v: u16) -> (r: [u8; 2])
     ensures r@ == le16(v),
 { v.to_le_bytes() }
+
+/// R12: `a == b` on `&[u8; 32]` (core: `impl PartialEq for [T; N]`, element-wise;
+/// Verus gives array `==` no specification)
+#[verifier::external_body]
+pub fn hash_eq(a: &[u8; 32], b: &[u8; 32]) -> (r: bool)
+    ensures r == (a@ == b@),
+{ a == b }
+
+/// R12: `$v.reverse()` on `Vec<EventRecord>` (core::slice::reverse, "not supported"
+/// by Verus): the same elements in the opposite order
+#[verifier::external_body]
+pub fn vreverse_records(v: &mut Vec<EventRecord>)
+    ensures final(v)@.len() == old(v)@.len(), forall|i: int| 0 <= i < old(v)@.len() ==> #[trigger] final(v)@[i] == old(v)@[old(v)@.len() - 1 - i],
+{ v.reverse() }
